@@ -558,8 +558,10 @@ def classify(cexs):
         shape = c["shape"]
         if fp is not None and (dd.startswith(fp) or fp.startswith(dd)):
             nchars = lambda b: len(b.decode("utf-8", "replace"))
-            if multibyte and nchars(d) > nchars(fp):
-                # more characters of the directory are compared than the prefix has (byte length used as a character count)
+            if multibyte and nchars(d) > nchars(fp) and len(d) > len(fp):
+                # more characters of the directory are compared than the prefix has (byte length used as a character count); this
+                # can only happen when the directory is longer in bytes than the prefix - otherwise min(byte lengths) characters are
+                # the whole directory and the comparison itself is the right one
                 role = "is_partial_match:prefix-comparison-counts-bytes-as-characters"
             elif c.get("ci") and multibyte:
                 role = "is_partial_match:case-folding-of-non-ascii-letters"
